@@ -151,7 +151,7 @@ def r_c03_evtx_window(s4, repo, scratch):
     for b in ('2023-03-16T03:00:00', '2023-03-10T03:49:43', '2023-03-16T03:54:33'):
         rc, o2, err = run_s4(s4, ['--color', 'never', '-b', b + '+00:00', f])
         got = len(rx.findall(o2))
-        want = len([t for t in all_ts if t[:19] <= b])
+        want = len([t for t in all_ts if t <= b + '.000000Z'])
         if got != want:
             bad.append('%s: printed %d, expected %d' % (b, got, want))
     return {'name': 'C03.evtx_window', 'input': f, 'how_made': 'file from the repository (stores records 204, 205 after later ones)',
